@@ -68,6 +68,9 @@ JOBS["trace-solver"] = dict(kind="trace", module="TraceSolver", runs={"quick": 2
 JOBS["trace-unify"] = dict(kind="trace", module="TraceUnify", runs={"quick": 1500, "thorough": 30000},
                            timeout={"quick": 900, "thorough": 3600})
 
+JOBS["trace-bip"] = dict(kind="trace", module="TraceBuiltins", runs={"quick": 4000, "thorough": 60000},
+                         timeout={"quick": 900, "thorough": 3600})
+
 UNIFY_ASSUME = [
     "pairs whose unification needs an occurs check are generated but excluded (counted under excluded_cases)",
     "the universe is bounded: terms of depth <= 2 over 2 atoms, 1 integer, 2 floats, 3 variables, $_, f/1 g/2 h/0, lists of <= 3 elements with and without tail",
@@ -86,7 +89,7 @@ PROPS = {
     "C03": dict(jobs=["solver-not", "trace-solver"], level="model_checking",
                 rule="not(...) around calls, conjunctions, disjunctions, unifications, comparisons, printing goals and another not, alone / after / before generators / in a disjunction, x queries with unbound and ground arguments",
                 assumptions=[]),
-    "C04": dict(jobs=["solver-print", "bip-print", "solver-cut", "solver-not", "trace-solver"], level="model_checking",
+    "C04": dict(jobs=["solver-print", "bip-print", "solver-cut", "solver-not", "trace-solver", "trace-bip"], level="model_checking",
                 rule="print / print_list / nl placed left and right of multi-answer, failing and negated goals; real stdout between successive answers is compared with the reference search's text; "
                      "plus single print / print_list / nl calls over 8 format strings (0-3 markers at every position) x argument tuples (atoms, integers, bound variables, chains) and concatenation without markers",
                 assumptions=["only atoms and small integers are printed (given literally or bound); format strings with k markers have k arguments or none"]),
@@ -130,10 +133,10 @@ PROPS = {
     "C09": dict(jobs=["unify-plain", "unify-sess", "unify-laws", "trace-unify"], level="model_checking",
                 rule="the cases of C06/C08 that contain $_ (argument, list element, list tail, nested); non-trivial as for C06",
                 assumptions=UNIFY_ASSUME),
-    "C14": dict(jobs=["bip-cmp", "syntax-goals"], level="model_checking",
+    "C14": dict(jobs=["bip-cmp", "syntax-goals", "trace-bip"], level="model_checking",
                 rule="every comparison predicate x every ordered pair of operands (integers incl. -2^63 and 2^62, floats incl. -0.0 and fractions, ASCII/space/non-ASCII atoms, non-constants), literally and through variable chains; distinct by (predicate, operands, prior)",
                 assumptions=["integers compared with floats are only generated where the i64 -> f64 conversion is exact", "named forms here; infix forms are covered by the syntax slices (C19/C20)"]),
-    "C15": dict(jobs=["lists-mklist", "lists-rename", "bip-append", "bip-filter", "syntax-terms"], level="model_checking",
+    "C15": dict(jobs=["lists-mklist", "lists-rename", "bip-append", "bip-filter", "syntax-terms", "trace-bip"], level="model_checking",
                 rule="constructor: every element sequence up to length 5 over atoms, numbers, variables, $_, complex terms, empty / nested / tailed lists x vbar, stepped through the make_linked_list machine of Lists.tla; "
                      "engine-built lists: every renamed term vector, append result and include/exclude result of the other slices, projected cell by cell with the well-formedness check",
                 assumptions=["a single-element sequence whose element is a list is outside the documented constructor contract", "parsed lists are checked by the syntax slices (C19)"]),
@@ -141,17 +144,17 @@ PROPS = {
                 rule="every vector of 1-3 terms (clause-shaped: shared and distinct variable names, $_, empty / nested lists, tails, function terms) renamed from two counter values; plus every term pair of the unifier slice renamed and unified",
                 assumptions=["freshness in the middle of a search: after every replayed query each clause of the program is fetched with get_rule() one after the other; "
                              "and in every recorded run each head unification must have taken at least one fresh id per variable name of its clause (the engine's own counter, logged by the resolve hook)"]),
-    "C16": dict(jobs=["bip-append"], level="model_checking",
+    "C16": dict(jobs=["bip-append", "trace-bip"], level="model_checking",
                 rule="append with 1-4 inputs from a universe of atoms, numbers, complex terms, bound variables, lists with nested / empty-list elements and bound tails, x 3 priors x several Out shapes",
                 assumptions=["unbound-variable inputs and lists with an unbound tail are outside the claim and excluded"]),
-    "C17": dict(jobs=["bip-count", "bip-filter", "bip-functor", "unify-fn"], level="model_checking",
+    "C17": dict(jobs=["bip-count", "bip-filter", "bip-functor", "unify-fn", "trace-bip"], level="model_checking",
                 rule="count / include / exclude / functor calls over the list, pattern and complex-term universes of MC_Builtins x priors, and join(...) function terms of the fn slice",
                 assumptions=["join is only claimed for atom / small-integer words"]),
-    "C12": dict(jobs=["unify-arith", "syntax-goals"], level="model_checking",
+    "C12": dict(jobs=["unify-arith", "syntax-goals", "trace-bip"], level="model_checking",
                 rule="add/subtract/multiply/divide over every argument list of 1-3 numbers of the exact-number universe (and 4 over a smaller one), literal, through bound variables and variable chains, unified with a variable and with constants; excluded: lists whose fold is not exactly representable (overflow, integer division by zero, inexact float results)",
                 assumptions=["IEEE rounding of inexact float operations is not modelled: only argument lists whose every intermediate result is exactly representable are claimed",
                              "the infix forms + - * / are produced by the parser slices (C19/C20), which map them to these function terms"]),
-    "C13": dict(jobs=["unify-fn"], level="model_checking",
+    "C13": dict(jobs=["unify-fn", "trace-bip"], level="model_checking",
                 rule="every function term of the universe (4 arithmetic functions x 6 argument lists, 5 joins) against variables, constants of every type and other function terms, both orders, bare and nested in f(_) and in a list, under 6 priors",
                 assumptions=["arithmetic is exact (dyadic) in the model: inputs whose fold is not exactly representable are excluded"]),
 }
